@@ -1,5 +1,5 @@
 (* regenerated on every run by harness/cmd/translate (reconcile) from
-   core/task/manager.go (handleMessage, NewManager) and core/task/scheduler.go *)
+   core/task/manager.go (handleMessage, NewManager, doKillTasks) and core/task/scheduler.go *)
 From Verif Require Import Common.
 Open Scope N_scope.
 (* Mesos task states (numeric values of mesos.TaskState) for which a status update with reason
@@ -12,7 +12,9 @@ Definition recon_kill_states : list N := [
   13 (* TASK_UNKNOWN *)
 ].
 (* does that test also look the task up in the roster of the current life? *)
-Definition recon_guarded : bool := false.
+Definition recon_guarded : bool := true.
+(* doKillTasks (KillTasks, Cleanup): do the tasks of the set that are not ACTIVE get a KILL call too? *)
+Definition kill_inactive : bool := true.
 (* the states in which Mesos considers a task alive (mesos.proto: non-terminal, reachable) *)
 Definition mesos_live_states : list N := [6; 0; 1; 8]. (* STAGING STARTING RUNNING KILLING *)
 Definition mesos_running : N := 1.
